@@ -46,6 +46,9 @@ class ClientCtx:
         self.linalg_faults = [f for f in faults if f["kind"] == "linalg"]
         self.linalg_calls = {}
         self.knobs = [f for f in faults if f["kind"] in ("cache_off",)]
+        pz = [f for f in faults if f["kind"] == "poison_empty"]
+        self.poison = pz[0].get("pattern", 0) if pz else None
+        self.poison_calls = 0
         self.inner_results = []
 
     # -- history ---------------------------------------------------------
@@ -256,6 +259,19 @@ class _CbObj:
         return self._body(xk, None)
 
 
+class _CbObjFalsy:
+    """A callable recorder that tests as false (it defines __len__, like a list subclass that is still empty)."""
+
+    def __init__(self, body):
+        self._body = body
+
+    def __len__(self):
+        return 0
+
+    def __call__(self, xk):
+        return self._body(xk, None)
+
+
 class _CbObjKw:
     def __init__(self, body):
         self._body = body
@@ -321,6 +337,8 @@ def make_callback(ctx, spec):
         return _CbObj(body)
     if style == "objkw":
         return _CbObjKw(body)
+    if style == "objfalsy":
+        return _CbObjFalsy(body)
     if style == "partial":
         def cb2(tag, xk):
             return body(xk, None)
